@@ -1,7 +1,10 @@
 """stubtest reports the plugin-generated TypeVar `_DT` of an order=True dataclass as 'not present at runtime'.
 
 Exit status 1 = defect present, 0 = absent, 2 = inconclusive (preconditions of the input failed).
-Mechanism keys: stubtest:parse-only:dataclass.synthetic:_DT:is not present at runtime, stubtest:semantic:dataclass.synthetic:_DT:is not present at runtime"""
+Mechanism keys:
+  stubtest:parse-only:dataclass.synthetic:_DT:is not present at runtime
+  stubtest:semantic:dataclass.synthetic:_DT:is not present at runtime
+"""
 import os
 import sys
 
